@@ -10,12 +10,13 @@ git -C /repo worktree add -q --detach "$WT" HEAD || exit 2
 cd "$WT"
 DEMO_FLAGS="$(python3 -c "import json,sys;print(json.load(open('$D/meta.json')).get('demo_rustflags',''))")"
 DEMO_FEATURES="$(python3 -c "import json,sys;print(json.load(open('$D/meta.json')).get('demo_features',''))")"
+DEMO_RELEASE="$(python3 -c "import json,sys;print('--release' if json.load(open('$D/meta.json')).get('demo_release') else '')")"
 DEMO_ENV="$(python3 -c "import json,sys;print(json.load(open('$D/meta.json')).get('demo_env',''))")"
 cp "$D/seeded_demo.rs" tests/seeded_demo.rs
 run_demo() { env $DEMO_ENV RUSTFLAGS="$DEMO_FLAGS" cargo test --offline ${DEMO_FEATURES:+--features $DEMO_FEATURES} --test seeded_demo "$@" >"$1.log" 2>&1; echo $?; }
-A=$( (eval "env $DEMO_ENV RUSTFLAGS=\"$DEMO_FLAGS\" cargo test --offline ${DEMO_FEATURES:+--features $DEMO_FEATURES} --test seeded_demo" >/tmp/wt/confirm_demo_without.log 2>&1; echo $?) )
+A=$( (eval "env $DEMO_ENV RUSTFLAGS=\"$DEMO_FLAGS\" cargo test $DEMO_RELEASE --offline ${DEMO_FEATURES:+--features $DEMO_FEATURES} --test seeded_demo" >/tmp/wt/confirm_demo_without.log 2>&1; echo $?) )
 git apply "$D/patch.diff" || { echo "patch does not apply"; cd /; git -C /repo worktree remove --force "$WT"; exit 2; }
-B=$( (eval "env $DEMO_ENV RUSTFLAGS=\"$DEMO_FLAGS\" cargo test --offline ${DEMO_FEATURES:+--features $DEMO_FEATURES} --test seeded_demo" >/tmp/wt/confirm_demo_with.log 2>&1; echo $?) )
+B=$( (eval "env $DEMO_ENV RUSTFLAGS=\"$DEMO_FLAGS\" cargo test $DEMO_RELEASE --offline ${DEMO_FEATURES:+--features $DEMO_FEATURES} --test seeded_demo" >/tmp/wt/confirm_demo_with.log 2>&1; echo $?) )
 rm tests/seeded_demo.rs
 cargo test --workspace --no-fail-fast --offline >/tmp/wt/confirm_suite.log 2>&1; C=$?
 PASSED=$(grep -E "^test result: ok" /tmp/wt/confirm_suite.log | sed -E 's/.* ([0-9]+) passed.*/\1/' | paste -sd+ | bc)
